@@ -2,7 +2,7 @@
 from props import parser_ob
 def obligations():
     parser_ob.ACCEPT_KEYS = None
-    obs = parser_ob.obligations_c11_parser()
+    obs = parser_ob.obligations_c11_parser() + parser_ob.obligations_trivia('O11.8')
     try:
         from props import e1_obs
         obs += e1_obs.c11_obligations()
